@@ -303,8 +303,8 @@ PROPS['C19'] = {
     'level': 'exploration',
     'technique': 'bounded exhaustive enumeration of (N, element type, prior contents) for zeroize and of (N, element type) for the constant default, evaluated by the compiler (const/static items) and at run time, on the real code',
     'parts': [engine_part('zeroize-constdefault', 'e_misc', 'C19', shards_quick=1, asan='thorough')],
-    'rule': ("every N in 0..=65 and {100,127,128,255,256,257,1000,1023,1024} (every even/odd storage shape to depth 6 complete, boundary shapes to depth 10). zeroize: element in {u8, u64, [u8;3], GenericArray<u8,U3>, Probe{a:u8,b:u32}, Wipe7 (zeroizes to the "
-             "non-zero value 7)} x prior contents in {all 0xFF, index-dependent, already zero}; every element must equal its zeroized value. Constant default: element in {u8, u64, Probe (DEFAULT a=1, b=0xDEADBEEF), GenericArray<Probe,U3>, (u8,Probe)}; "
+    'rule': ("every N in 0..=65 and {100,127,128,255,256,257,1000,1023,1024} (every even/odd storage shape to depth 6 complete, boundary shapes to depth 10). zeroize: element in {u8, u64, [u8;3], GenericArray<u8,U3>, Probe{a:u8,b:u32}, Wipe7 / Wipe1 (two-byte / one-byte types that zeroize to a "
+             "non-zero value), Option<bool>, NonZeroU8, Keep (keeps a tag field across zeroize, so its zeroized value depends on its prior content) and GenericArray<Keep,U2>} x prior contents in {all 0xFF, index-dependent, already zero}; every element must equal its zeroized value. Constant default: element in {u8, u64, Probe (DEFAULT a=1, b=0xDEADBEEF), GenericArray<Probe,U3>, (u8,Probe)}; "
              "const_default() and DEFAULT evaluated in a const item, a static item and at run time must all be N copies of T::DEFAULT and equal Default::default(). Non-trivial = N > 0."),
     'exhaustive': True,
     'exhaustive_scope': 'the listed finite product',
